@@ -161,5 +161,6 @@ pub fn c16() -> PropDef {
         assumptions: COMMON_ASSUMPTIONS,
         tiny: no_tiny,
         long: None,
+        growth: None,
     }
 }
